@@ -20,6 +20,7 @@ import (
 	"github.com/gobwas/ws/wsutil"
 
 	"google.golang.org/genproto/googleapis/api/annotations"
+	"google.golang.org/grpc"
 	"google.golang.org/protobuf/encoding/protojson"
 	"google.golang.org/protobuf/proto"
 	"google.golang.org/protobuf/reflect/protoreflect"
@@ -71,9 +72,13 @@ type Case struct {
 	SubCompete []bool `json:"sub_compete"`
 	// WS: the rule is a WebSocket binding; the body travels as the first data
 	// frame, preceded by WSEmpty zero-length frames (text or binary).
-	WS       bool `json:"ws"`
-	WSEmpty  int  `json:"ws_empty"`
-	WSBinary bool `json:"ws_binary"`
+	// Stream: the method is client-streaming over plain HTTP; the body is a stream of messages whose
+	// first one carries the competing values (the URL is bound to the first message of a stream).
+	Stream      bool `json:"stream"`
+	StreamExtra int  `json:"stream_extra"` // further (empty) messages after the first
+	WS          bool `json:"ws"`
+	WSEmpty     int  `json:"ws_empty"`
+	WSBinary    bool `json:"ws_binary"`
 }
 
 // subKey returns the query key/value that reaches into field f.
@@ -220,7 +225,7 @@ func setText(m *dynamicpb.Message, field, text string) error {
 
 // Check drives one case and applies the oracle.
 func Check(c Case) (vs []evid.Violation, delivered bool) {
-	svc := dyn.Svc("Svc", dyn.MethodSpec{Name: "Do", In: ".c7.Req", Out: ".c7.Req", Rule: c.rule()})
+	svc := dyn.Svc("Svc", dyn.MethodSpec{Name: "Do", In: ".c7.Req", Out: ".c7.Req", Rule: c.rule(), ClientStream: c.Stream})
 	w, err := dyn.NewWorld(dyn.File("c7.proto", "c7", msgs, nil, []*descriptorpb.ServiceDescriptorProto{svc}))
 	if err != nil {
 		panic(err)
@@ -232,7 +237,28 @@ func Check(c Case) (vs []evid.Violation, delivered bool) {
 		got = append(got, proto.Clone(req))
 		gotMu.Unlock()
 		return req, nil
-	}, nil)
+	}, func(full string, in, out protoreflect.MessageDescriptor, ss grpc.ServerStream) error {
+		var first proto.Message
+		for {
+			m := dynamicpb.NewMessage(in)
+			if err := ss.RecvMsg(m); err != nil {
+				if err != io.EOF {
+					return err
+				}
+				break
+			}
+			if first == nil {
+				first = proto.Clone(m)
+				gotMu.Lock()
+				got = append(got, first)
+				gotMu.Unlock()
+			}
+		}
+		if first == nil {
+			first = dynamicpb.NewMessage(out)
+		}
+		return ss.SendMsg(first)
+	})
 	mux, err := larking.NewMux(larking.FilesOption(w.Files))
 	if err != nil {
 		panic(err)
@@ -325,7 +351,22 @@ func Check(c Case) (vs []evid.Violation, delivered bool) {
 		res.Rec = httptest.NewRecorder()
 	} else {
 		var req *http.Request
-		if len(body) > 0 {
+		if c.Stream && bodyMsg != nil {
+			// a stream body: the first message, then StreamExtra empty ones
+			var sb bytes.Buffer
+			if c.Codec == "proto" {
+				larking.CodecProto{}.WriteNext(&sb, body)
+				for i := 0; i < c.StreamExtra; i++ {
+					larking.CodecProto{}.WriteNext(&sb, nil)
+				}
+			} else {
+				sb.Write(body)
+				for i := 0; i < c.StreamExtra; i++ {
+					sb.WriteString("{}")
+				}
+			}
+			req = drive.Request(c.Verb, c.path(), q.Encode(), hdr, bytes.NewReader(sb.Bytes()), -1)
+		} else if len(body) > 0 {
 			req = drive.Request(c.Verb, c.path(), q.Encode(), hdr, bytes.NewReader(body), int64(len(body)))
 		} else {
 			req = drive.Request(c.Verb, c.path(), q.Encode(), hdr, nil, 0)
@@ -545,7 +586,10 @@ func genCase(t *rapid.T) Case {
 	if c.Body == "" {
 		c.OtherInBody = false
 	}
-	if rapid.IntRange(0, 19).Draw(t, "ws") == 0 {
+	if rapid.IntRange(0, 9).Draw(t, "stream") == 0 {
+		c.Stream = true
+		c.StreamExtra = rapid.IntRange(0, 2).Draw(t, "streamExtra")
+	} else if rapid.IntRange(0, 19).Draw(t, "ws") == 0 {
 		// the same rule as a WebSocket binding (JSON frames); a few zero-length frames may precede the message
 		c.WS, c.Codec = true, "json"
 		c.WSEmpty = rapid.SampledFrom([]int{0, 0, 1, 2}).Draw(t, "wsEmpty")
@@ -581,6 +625,10 @@ func classes(c Case, delivered bool) (string, []string) {
 	key += fmt.Sprintf("|json=%v|twice=%v|ws=%v,%d,%v", c.JSONKeys, c.QueryTwice, c.WS, c.WSEmpty, c.WSBinary)
 	if c.WS {
 		cl = append(cl, fmt.Sprintf("websocket-binding:empty-frames=%d", c.WSEmpty))
+	}
+	if c.Stream {
+		cl = append(cl, "http-client-stream")
+		key += fmt.Sprintf("|stream=%d", c.StreamExtra)
 	}
 	if delivered {
 		cl = append(cl, "delivered")
